@@ -17,7 +17,7 @@ TraitsVerif/Lemmas/Obs*.lean.
 import TraitsVerif.Lemmas.ObsAtomic
 import TraitsVerif.Lemmas.ObsMutate
 import TraitsVerif.Lemmas.ObsQuiet
-import TraitsVerif.Lemmas.ObsOnce
+import TraitsVerif.Lemmas.ObsInvList
 namespace TraitsVerif.Props.C08
 open TraitsVerif TraitsVerif.Model.Obs
 
@@ -134,9 +134,12 @@ theorem C08_fires_iff_reachable_false : ¬ C08_fires_iff_reachable := by
   trait (the hypothesis F10 violates; cycles, sharing and duplicates elsewhere are allowed);
 * `eqStruct` — among the sub-graphs involved, `ObserverGraph.__eq__` is structural equality
   (no two differ only in the order of parallel branches).
-NOT covered (stay correspondence-checked only): container mutations (list / dict / set
-items, where `notify` iterates the live notifier list), `add_trait`, container defaults,
-`filtered` nodes, the silent default of F80. -/
+`ListCore` (Lemmas/ObsInvList.lean) is the analogue for a mutation of an observed list
+(`nsrItems` / `nsrLive`: below the current, removed and added items the maintained
+sub-graphs never come back to the list itself, which also makes the iteration over the
+LIVE notifier list equal to one over a copy).
+NOT covered (stay correspondence-checked only): dict / set mutations, `add_trait`,
+container defaults, `filtered` nodes, the silent default of F80. -/
 
 /-- Assignment `o.n = v` to a materialised trait: the hooks are again exactly the
 from-scratch hooks of the new heap, and nothing raises.  Series and parallel
@@ -148,6 +151,38 @@ theorem C08_hooks_eq_reach_partial (E : Env) (st : St) (regs : List Reg) (o : Id
     HooksEqReach (mutate E st (.setField o n v fresh)).st.h (mutate E st (.setField o n v fresh)).st.H regs ∧
     (mutate E st (.setField o n v fresh)).err = none :=
   setField_preserves E st regs o n v fresh fs f hinv fr hset
+
+/-- Mutations of an observed list — `append`, `insert`, `del l[i]`, `l[i] = x`,
+`clear`, `extend` — preserve the invariant and raise nothing: the same object may
+occur several times (present twice and removed once keeps one registration's worth
+of reference counts), items may be shared with other containers and registrations,
+graphs may branch. -/
+theorem C08_hooks_eq_reach_partial_list (E : Env) (st : St) (regs : List Reg) (c : Id) (items : List Id)
+    (hinv : HooksEqReach st.h st.H regs) :
+    (∀ x, ListCore E st regs c items (items ++ [x]) (.list items.length [] [x]) →
+      HooksEqReach (mutate E st (.listAppend c x)).st.h (mutate E st (.listAppend c x)).st.H regs ∧
+      (mutate E st (.listAppend c x)).err = none) ∧
+    (∀ i x, i ≤ items.length → ListCore E st regs c items (items.take i ++ x :: items.drop i) (.list i [] [x]) →
+      HooksEqReach (mutate E st (.listInsert c i x)).st.h (mutate E st (.listInsert c i x)).st.H regs ∧
+      (mutate E st (.listInsert c i x)).err = none) ∧
+    (∀ i y, items[i]? = some y → ListCore E st regs c items (items.eraseIdx i) (.list i [y] []) →
+      HooksEqReach (mutate E st (.listDel c i)).st.h (mutate E st (.listDel c i)).st.H regs ∧
+      (mutate E st (.listDel c i)).err = none) ∧
+    (∀ i x y, items[i]? = some y → ListCore E st regs c items (items.set i x) (.list i [y] [x]) →
+      HooksEqReach (mutate E st (.listSet c i x)).st.h (mutate E st (.listSet c i x)).st.H regs ∧
+      (mutate E st (.listSet c i x)).err = none) ∧
+    (items.isEmpty = false → ListCore E st regs c items [] (.list 0 items []) →
+      HooksEqReach (mutate E st (.listClear c)).st.h (mutate E st (.listClear c)).st.H regs ∧
+      (mutate E st (.listClear c)).err = none) ∧
+    (∀ xs, xs.isEmpty = false → ListCore E st regs c items (items ++ xs) (.list items.length [] xs) →
+      HooksEqReach (mutate E st (.listExtend c xs)).st.h (mutate E st (.listExtend c xs)).st.H regs ∧
+      (mutate E st (.listExtend c xs)).err = none) :=
+  ⟨fun x core => listAppend_preserves E st regs c x items hinv core,
+   fun i x hi core => listInsert_preserves E st regs c i x items hi hinv core,
+   fun i y hy core => listDel_preserves E st regs c i y items hy hinv core,
+   fun i x y hy core => listSet_preserves E st regs c i x y items hy hinv core,
+   fun hne core => listClear_preserves E st regs c items hne hinv core,
+   fun xs hne core => listExtend_preserves E st regs c xs items hne hinv core⟩
 
 /-- A default materialised after registration (non-container default `d`, read of
 an unset trait) gets hooked by the maintainers — the invariant holds in the new
@@ -308,6 +343,66 @@ example : ((mutate {} xSt (.setField 0 nChild (.ref 2) 0)).delivered.filter (fun
 
 example : cnt (mutate {} xSt (.setField 0 nChild (.ref 2) 0)).st.H (.trait 2 nValue) (.user f10Key) = 1 ∧
     cnt (mutate {} xSt (.setField 0 nChild (.ref 2) 0)).st.H (.trait 1 nValue) (.user f10Key) = 0 := by decide
+
+def lHeap : Heap :=
+  [(0, .inst [fld nKids (.ref 100), fld nTraitAdded .unset]),
+   (1, .inst [fld nValue (.int 3), fld nTraitAdded .unset]),
+   (100, .list [1, 1])]
+def lGraph : Graph := .node (.named nKids true false) [.node (.listItems true false) [.node (.named nValue true false) []]]
+def lSt : St := ⟨lHeap, (addRemove lHeap f10Key false true lGraph (some 0) Hooks.empty).H⟩
+def lRegs : List Reg := [⟨f10Key, lGraph, 0⟩]
+
+theorem lHooks : lSt.H.get (.cont 100) =
+    [.user f10Key 1, .maint .list (.node (.named nValue true false) []) f10Key] := rfl
+theorem lVisits : Gen.visits (listSite 100) actTrue lSt.h lGraph (some 0) = [.node (.named nValue true false) []] := rfl
+
+/-- The hypotheses of `C08_hooks_eq_reach_partial_list` hold on a concrete state where the
+SAME object sits twice in the observed list (`a.kids = [b, b]`, `kids.items.value`). -/
+theorem lCore : ListCore {} lSt lRegs 100 [1, 1] ([1, 1].eraseIdx 0) (.list 0 [1] []) where
+  hc := rfl
+  noFiltered := by intro r hr; simp [lRegs] at hr; subst hr; decide
+  alive := fun _ => rfl
+  okRem := by
+    intro mk g k hm y hy
+    rw [lHooks] at hm
+    simp at hm
+    obtain ⟨rfl, rfl, rfl⟩ := hm
+    simp [CEvent.removed] at hy
+    subst hy
+    decide
+  okAdd := by intro mk g k _ y hy; simp [CEvent.added] at hy
+  nsrItems := by
+    intro r hr g hg y hy
+    simp [lRegs] at hr; subst hr
+    rw [lVisits] at hg
+    simp at hg; subst hg
+    simp at hy; subst hy
+    decide
+  nsrLive := by
+    intro mk g k hm y hy
+    rw [lHooks] at hm
+    simp at hm
+    obtain ⟨rfl, rfl, rfl⟩ := hm
+    simp [CEvent.removed, CEvent.added] at hy
+    subst hy
+    decide
+  eqStruct := by
+    intro mk g k hm r hr g' hg' he
+    rw [lHooks] at hm
+    simp at hm
+    obtain ⟨rfl, rfl, rfl⟩ := hm
+    simp [lRegs] at hr; subst hr
+    rw [lVisits] at hg'
+    simp at hg'; subst hg'
+    exact ⟨rfl, rfl⟩
+
+/-- … the theorem applies to `del a.kids[0]`, and the reference count on `b.value` goes 2 ↦ 1 -/
+example : HooksEqReach (mutate {} lSt (.listDel 100 0)).st.h (mutate {} lSt (.listDel 100 0)).st.H lRegs :=
+  ((C08_hooks_eq_reach_partial_list {} lSt lRegs 100 [1, 1]
+    (C08_observe_establishes lHeap f10Key lGraph 0 (by decide))).2.2.1 0 1 rfl lCore).1
+
+example : cnt lSt.H (.trait 1 nValue) (.user f10Key) = 2 ∧
+    cnt (mutate {} lSt (.listDel 100 0)).st.H (.trait 1 nValue) (.user f10Key) = 1 := by decide
 
 /-- an all-quiet graph exists and `QuietInv` holds of the empty hooks -/
 example : (Graph.node (.named nChild false false) [.node (.named nValue false false) []]).quiet = true ∧
